@@ -602,7 +602,28 @@ func (g *gen) cloneFresh(v *V) *V {
 	return &c
 }
 
+// scalars only at the bottom of 3 - 6 container wraps (6 - 13 levels)
+func (g *gen) deep() *V {
+	var w []string
+	for n := 3 + g.r.Intn(4); n > 0; n-- {
+		w = append(w, []string{"S", "P", "L", "LV", "M", "MV"}[g.r.Intn(6)])
+	}
+	c := g.canary + 1
+	g.canary += 7
+	v := deepChain(c, w...)
+	switch g.r.Intn(6) {
+	case 0:
+		return sliceOf(v)
+	case 1:
+		return imap("k1", v)
+	}
+	return v
+}
+
 func (g *gen) payload(depth int) (string, *V) {
+	if g.r.Chance(1, 40) {
+		return "val", g.deep()
+	}
 	switch g.r.Intn(24) {
 	case 0, 1, 2, 3, 4, 5, 6:
 		return "val", &V{K: "ptr", Elem: g.strct(depth)}
